@@ -260,3 +260,109 @@ func genN3(r *vlib.R) string {
 	v := n3view(parseN3(zs, it, sreal), tokName(q), it, sreal)
 	return fmt.Sprintf("nsec3 nodata q=%s t=%d Z=%s it=%d salt=%s V=%s", q, qt, zs, it, salt, v)
 }
+
+// nsec3 deleg q=<delegation name> Z=… it= salt= V=<view>      the real VerifyDelegationForZoneWithWork:
+// the NSEC3 proof that q is an INSECURE delegation — exact match (NS set, DS and SOA clear) or, under Opt-Out,
+// a closest provable encloser that is itself no delegation point / DNAME owner + an Opt-Out record covering
+// the next closer name.  V as for `nsec3 nodata`, with the exact-match bits <n|-><d|-><s|->.
+func n3delegView(recs []*n3rec, q string, it int, salt string) string {
+	h := n3hash(q, it, salt)
+	for _, r := range recs {
+		if r.hash == h {
+			f := func(c string) string {
+				if strings.Contains(r.bits, c) {
+					return c
+				}
+				return "-"
+			}
+			return "x" + f("n") + f("D") + f("s")
+		}
+	}
+	return n3view(recs, q, it, salt)
+}
+
+func execN3Deleg(f []string) vlib.Res {
+	m := kv(f)
+	it := vlib.Atoi(m["it"])
+	salt := m["salt"]
+	if salt == "-" {
+		salt = ""
+	}
+	q := tokName(m["q"])
+	recs := parseN3(m["Z"], it, salt)
+	if n3delegView(recs, q, it, salt) != m["V"] {
+		return vlib.Res{Impl: "view-drift:" + n3delegView(recs, q, it, salt)}
+	}
+	var set []dns.RR
+	for i, r := range recs {
+		fl := uint8(0)
+		if r.optout {
+			fl = 1
+		}
+		bm := n3bitmap(r.bits, dns.TypeA)
+		if strings.Contains(r.bits, "D") {
+			bm = append(bm, dns.TypeDS)
+			sort.Slice(bm, func(i, j int) bool { return bm[i] < bm[j] })
+		}
+		set = append(set, &dns.NSEC3{Hdr: dns.RR_Header{Name: strings.ToLower(r.hash) + "." + n3zone, Rrtype: dns.TypeNSEC3, Class: 1, Ttl: 60},
+			Hash: dns.SHA1, Flags: fl, Iterations: uint16(it), SaltLength: uint8(len(salt) / 2), Salt: salt, HashLength: 20,
+			NextDomain: recs[(i+1)%len(recs)].hash, TypeBitMap: bm})
+	}
+	err := dnssec.VerifyDelegationForZoneWithWork(q, n3zone, set, nil)
+	impl := "ok"
+	switch {
+	case err == nil:
+	case errors.Is(err, dnssec.ErrNSECNSMissing):
+		impl = "fail:nsmissing"
+	case errors.Is(err, dnssec.ErrNSECBadDelegation):
+		impl = "fail:baddelegation"
+	case errors.Is(err, dnssec.ErrNSECMissingCoverage):
+		impl = "fail:nocover"
+	case errors.Is(err, dnssec.ErrNSECOptOut):
+		impl = "fail:optout"
+	default:
+		impl = "fail:other(" + strings.ReplaceAll(err.Error(), " ", "_") + ")"
+	}
+	v := m["V"]
+	or := "ok"
+	if err == nil {
+		if v[0] == 'x' {
+			if v != "xn--" {
+				or = fail("nsec3/deleg/exact-match-without-ns-or-with-ds-soa-accepted", "V=%s", v)
+			}
+		} else {
+			p := strings.Split(v[1:], ":")
+			switch {
+			case p[0] != "1":
+				or = fail("nsec3/deleg/optout-proof-anchored-at-a-delegation-or-missing-encloser", "V=%s", v)
+			case p[1] != "1":
+				or = fail("nsec3/deleg/accepted-without-optout-cover", "V=%s", v)
+			}
+		}
+	}
+	return vlib.Res{Impl: impl, Oracle: or, Tags: "nt,v:" + v[:1]}
+}
+
+func genN3Deleg(r *vlib.R) string {
+	it := vlib.Pick(r, []int{0, 1, 5})
+	salt := vlib.Pick(r, []string{"-", "ab"})
+	sreal := salt
+	if sreal == "-" {
+		sreal = ""
+	}
+	fl := func() string { return vlib.Pick(r, []string{"-", "o", "o"}) }
+	// a TLD-shaped parent: apex, secure delegations (NS+DS), insecure ones (NS), an ENT, a DNAME owner, hosts
+	z := []string{
+		"n3.test:" + fl() + "sn",
+		"child.n3.test:" + fl() + vlib.Pick(r, []string{"nD", "nD", "n", "nDs", ""}),
+		"plain.n3.test:" + fl() + vlib.Pick(r, []string{"n", "n", "ns", "t"}),
+		"dn.n3.test:" + fl() + "d",
+		"ent.n3.test:" + fl() + "",
+		"host.n3.test:" + fl() + "t",
+	}
+	q := vlib.Pick(r, []string{"www.child.n3.test", "www.child.n3.test", "a.b.child.n3.test", "child.n3.test", "plain.n3.test", "new.n3.test", "x.ent.n3.test",
+		"x.dn.n3.test", "x.plain.n3.test", "x.host.n3.test"})
+	zs := strings.Join(z, ",")
+	v := n3delegView(parseN3(zs, it, sreal), tokName(q), it, sreal)
+	return fmt.Sprintf("nsec3 deleg q=%s Z=%s it=%d salt=%s V=%s", q, zs, it, salt, v)
+}
